@@ -1,6 +1,6 @@
 """C10 - privileged operations are rejected for every unauthorised sender (DESIGN 6, C10)."""
 from ..authz import GuardAnalysis
-from ..callgraph import explore, storage_effects
+from ..callgraph import explore, storage_effects, site_guarded
 from ..expr import show
 from .common import CONTRACTS, entry, msg_enum, variant_env, stored, where
 
@@ -253,7 +253,7 @@ def run(prog, world, sem, rep):
                 if cell != HUBCFG or kind not in ("write", "update"):
                     continue
                 n += 1
-                ok, detail = write_once_ok(sem, vis, kind, cell, val, fld)
+                ok, detail = write_once_ok(sem, vis, kind, cell, val, fld, visits)
                 rep.ob("C10.d", "hub::%s write of Config.%s" % (v, fld), ok, detail, where(vis.body, bb),
                        key="C10.d | hub::%s | %s | %s" % (v, vis.body.path, fld))
 
@@ -302,7 +302,15 @@ def run(prog, world, sem, rep):
                        "TokenInfo.mint written with %s" % (fl,), where(vis.body, bb))
 
 
-def write_once_ok(sem, vis, kind, cell, val, fld):
+def _anc(v):
+    out = []
+    while v.parent is not None:
+        v = v.parent[0]
+        out.append(v)
+    return out
+
+
+def write_once_ok(sem, vis, kind, cell, val, fld, visits=None):
     """value written to Config.<fld> is the stored one, or the write happens only when
     is_some(stored fld) was observed false"""
     w = sem.w
@@ -312,6 +320,30 @@ def write_once_ok(sem, vis, kind, cell, val, fld):
     fl = sem.label(sem.field_of(wv, fld))
     if fl == stored(cell, fld):
         return True, "preserved"
+    # field assignments `<config>.fld = ..` anywhere under this write's function (load + modify + save, or inside an update closure):
+    # each must lie behind the observation that the stored / incoming field is still unset
+    def unset(f, resolve):
+        if f[0] == "truth" and f[2] is False and f[1].op == "call" and f[1].info == "std::option::Option::is_some":
+            lab = sem.label(resolve(f[1].args[0]))
+            return lab is not None and ((lab[0] == "stored" and lab[1] == cell and tuple(lab[3]) == (fld,)) or (lab[0] == "param" and lab[4] == (fld,) and "Config" in lab[3]))
+        return False
+    if visits is not None:
+        n_def = 0
+        for v2 in visits:
+            if not (v2 is vis or any(a is vis for a in _anc(v2))):
+                continue
+            for l, ds in v2.be.defs_by_local.items():
+                if not v2.body.local_tys[l].replace("&mut ", "").replace("&", "").strip().endswith("hub::Config"):
+                    continue
+                for d in ds:
+                    if d.path and len(d.path) >= 1 and d.path[0][0] == "f" and d.path[0][1] == fld and d.bb in v2.blocks:
+                        n_def += 1
+                        g, why = site_guarded(sem, v2, d.bb, unset)
+                        if not g:
+                            return False, "Config.%s assigned at line %d of %s without having observed it unset (%s)" % (
+                                fld, v2.body.blocks[d.bb].term.line, v2.body.path, why)
+        if n_def:
+            return True, "%d assignment(s) of Config.%s, each behind is_some() == false" % (n_def, fld)
     if kind != "update":
         return False, "Config.%s overwritten with %s by a plain save" % (fld, fl)
     clo = w.ident(val)
